@@ -182,11 +182,15 @@ func (h *Harness) DirOf(s *Stream, side int) *Dir {
 	return r
 }
 
+// PageBytes is the page size of the assembler under test (set by the adapter
+// from the package's verif accessor; 1900 in the shipped code).
+var PageBytes = 1900
+
 func pagesOf(n int) int {
 	if n <= 0 {
 		return 1
 	}
-	return (n + 1899) / 1900
+	return (n + PageBytes - 1) / PageBytes
 }
 
 // Deliver applies the delivery model to one hand-over of new data.
